@@ -48,6 +48,7 @@ class Verifier(Exec):
         self.specfun_axioms = set()
         self.pending_specfun = []
         self.unfolding = 0
+        self.loop_pcs = []
         self.sf_fields = {}
         self.sf_heaps = {}
         self.heap_record = None
@@ -576,6 +577,13 @@ class Verifier(Exec):
                 else:
                     lo = add(base.off, ev.term(parse_expr(m.group(2))) if m.group(2).strip() else ZERO)
                     hi = add(base.off, ev.term(parse_expr(m.group(3))) if m.group(3).strip() else base.len)
+                # a region reached through a nil pointer is empty (e.g. slab.I16[...] with slab == nil)
+                be = parse_expr((m2 or m).group(1))
+                if be[0] == 'sel' and be[1][0] == 'id':
+                    pv = ev.lookup(be[1][1]) if (be[1][1] in env or be[1][1] in ev.bound) else None
+                    if isinstance(pv, PtrV) and pv.term is not None:
+                        nonnil = ne(pv.term, ZERO)
+                        lo, hi = ite(nonnil, lo, ZERO), ite(nonnil, hi, ZERO)
                 ek = self.elem_key(base.elem) if isinstance(base, SliceV) else 'uint8'
                 if isinstance(base, SliceV) and not self.is_scalar(base.elem):
                     regs.append(('objs', base.elem, base.arr, lo, hi))
@@ -717,7 +725,7 @@ class Verifier(Exec):
                 return sub(I(rng[1]), x)
             return sub(neg(x), ONE)
         if op == '<-':
-            v = self.fresh_value('recv', ins['type'])
+            v = self.fresh_value('recv', ins['type'], True, st.alloc)
             return v
         raise Unsupported('unop ' + op)
 
@@ -1035,9 +1043,9 @@ class Verifier(Exec):
         # result
         rt = ins['type']
         if self.kind(rt) == 'tuple':
-            res = self.fresh_value('r:' + short_fn(callee), rt)
+            res = self.fresh_value('r:' + short_fn(callee), rt, True, None)
         elif rtypes:
-            res = self.fresh_value('r:' + short_fn(callee), rt)
+            res = self.fresh_value('r:' + short_fn(callee), rt, True, None)
         else:
             res = None
         self.bound_new_addrs(res, rt, st) if res is not None else None
@@ -1544,7 +1552,7 @@ class Verifier(Exec):
             return
         elif op == 'TypeAssert':
             x = self.val(st, ins['x'])
-            v = self.fresh_value('ta', ins['asserted'])
+            v = self.fresh_value('ta', ins['asserted'], True, st.alloc)
             if ins.get('commaok'):
                 r = TupleV([v, self.ctx.fresh('taok', BOOL)])
             else:
@@ -2009,16 +2017,17 @@ class Verifier(Exec):
         cells, heaps = self.loop_modified(lp)
         st = st.copy()
         pre = st.copy()
+        # anything the loop may have allocated lies below the new allocation counter
+        na_loop = self.ctx.fresh('alloc', INT)
+        self.ctx.assume(le(pre.alloc, na_loop))
         for cn in sorted(cells):
             if cn in st.cells:
-                st.cells[cn] = self.fresh_value('lv:%s' % (self.cellinfo[cn][0] or cn), self.cellinfo[cn][2])
+                st.cells[cn] = self.fresh_value('lv:%s' % (self.cellinfo[cn][0] or cn), self.cellinfo[cn][2], True, na_loop)
         regions = None
         if spec and spec.writes is not None:
             regions = self.eval_regions(spec.writes, pre, env) + [('fresh', pre.alloc)]
+        st.alloc = na_loop
         if heaps:
-            na = self.ctx.fresh('alloc', INT)
-            self.ctx.assume(le(pre.alloc, na))
-            st.alloc = na
             wh = self.loop_written_heaps(lp)
             if regions is not None:
                 self.havoc_regions(st, [r for r in regions if r[0] != 'fresh'] , 'loop%s' % lp.ordinal)
@@ -2042,6 +2051,7 @@ class Verifier(Exec):
             ev = SpecEval(self, st, env, self.old, spec.decreases.src)
             dec0 = self.ctx.name('dec%s' % lp.ordinal, ev.term(spec.decreases.expr))
         self.loopctx[h] = (lp, spec, env, dec0, regions, invs)
+        self.loop_pcs.append(('loop%s.header' % lp.ordinal, st.pc, len(self.ctx.asserts)))
         lp.regions = regions
         return st
 
@@ -2083,6 +2093,7 @@ class Verifier(Exec):
 
     def back_edge(self, h, st):
         lp, spec, env, dec0, regions, invs = self.loopctx[h]
+        self.loop_pcs.append(('loop%s.backedge' % lp.ordinal, st.pc, len(self.ctx.asserts)))
         self.cur_line = lp.ast['line'] if lp.ast else self.cur_line
         self.cur_detail = 'loop%s' % lp.ordinal
         if spec:
